@@ -1126,6 +1126,20 @@ def dot(a, b):
     return SArr(out, (n, m), None)
 
 
+def all_(a, axis=None, **kw):
+    if not _use_shim(a):
+        return np.all(a, axis=axis, **kw)
+    a = asarr(a)
+    return a.all(axis=axis) if isinstance(a, SArr) else bool(a)
+
+
+def any_(a, axis=None, **kw):
+    if not _use_shim(a):
+        return np.any(a, axis=axis, **kw)
+    a = asarr(a)
+    return a.any(axis=axis) if isinstance(a, SArr) else bool(a)
+
+
 def allclose(a, b, rtol=1e-05, atol=1e-08, **kw):
     if not _use_shim(a, b):
         return np.allclose(a, b, rtol=rtol, atol=atol, **kw)
@@ -1258,7 +1272,7 @@ for _n, _s in [
     ("argmin", argmin), ("argmax", argmax), ("dot", dot), ("allclose", allclose), ("isclose", isclose),
     ("linspace", linspace), ("logspace", logspace), ("ceil", ceil), ("floor", floor), ("vstack", vstack),
     ("identity", identity), ("eye", eye), ("diag", diag), ("sort", sort), ("argsort", argsort),
-    ("negative", negative),
+    ("negative", negative), ("all", all_), ("any", any_),
 ]:
     _reg(getattr(np, _n), _s)
 _reg(np.linalg.norm, norm)
